@@ -488,7 +488,7 @@ impl Suite for PoolSuite {
                 cases.push(Case { input: mk_case(initial, max, steps), tags: vec!["burst".into(), format!("cfg:{}x{}", initial, max)] });
             }
         }
-        let n = if ctx.thorough { 600 } else { 90 };
+        let n = if ctx.thorough { 5000 } else { 90 };
         for _ in 0..n {
             let initial = rng.range(1, 3);
             let max = rng.range(1, 4);
